@@ -76,6 +76,19 @@ theorem olareg_add_under_token : ∀ a ∈ wgAdds, a.2.2.2.2.1 = true → a.2.2.
   simp [Lk.wgAddOk, ht] at this
   exact this
 
+/-- a thread that waits for the repository token or, as a collector, for the in-flight requests holds no mutex — so it blocks
+    nobody but through the token and the count, as the protocol model assumes, and a request to another repository (or one
+    whose context expires) is never queued behind it on a lock that ignores contexts.  **Partial**: excluded are the threads
+    that shut the instance down (`Lk.shutdownRoots`) and the pairs of `Lk.waitExceptions` (the cleanup of an aged-out entry of
+    the directory store's cache of repositories collects under the cache mutex: an open finding, witness in the notes) -/
+theorem olareg_waits_hold_no_mutex_partial : ∀ w ∈ repoWaits,
+    w.2.2.2.1 ∈ Lk.shutdownRoots ∨ ∀ m ∈ w.2.2.1, (w.2.2.2.1, m) ∈ Lk.waitExceptions := by
+  have h : Lk.repoWaitsOk = true := by decide
+  intro w hw
+  have := List.all_eq_true.mp h w hw
+  simp only [Lk.repoWaitOk, Bool.or_eq_true, List.contains_iff_mem, List.all_eq_true] at this
+  exact this
+
 /-- **the lock programs of olareg cannot hang** (partial, see the module comment): in any configuration — any number of
     threads, repositories, sessions — in which each thread's (held, wanted) pairs are, at class level, among the statically
     derived edges, not everybody is blocked -/
